@@ -1223,7 +1223,15 @@ class Interp(object):
                     return getattr(obj, name)
                 except AttributeError:
                     return self.call_real_function(ga, [obj, name], {})
-        return getattr(obj, name)
+        try:
+            return getattr(obj, name)
+        except AttributeError:
+            # an attribute the MODEL of an external object (ghost connection, cursor, file ...) does not offer says
+            # nothing about the real object: undecided, never an exception of the code under verification
+            mod = getattr(tp if not isinstance(obj, type) else obj, "__module__", "") or ""
+            if mod.split(".")[0] in ("pyvc", "contracts", "props", "standins") and (not name.startswith("__") or name in ("__enter__", "__exit__")):
+                raise Undecided("the model %s has no attribute %r" % (tp.__name__, name))
+            raise
 
     def setattr(self, obj, name, value):
         if isinstance(obj, Sym):
